@@ -86,8 +86,10 @@ class CPool:
                 res[i] = ('ok', self._copy(f(self._copy(tasks[i]))))
             except Exception as e:   # transported to the parent like a real pool
                 res[i] = ('exc', e)
-        CPool.log.append({'kind': kind, 'fun': getattr(f, '__name__', str(f)),
-                          'ntasks': len(tasks), 'order': order})
+        entry = {'kind': kind, 'fun': getattr(f, '__name__', str(f)), 'ntasks': len(tasks), 'order': order}
+        if CPool.policy.get('capture'):
+            entry['results'] = [r[1] if r[0] == 'ok' else None for r in res]
+        CPool.log.append(entry)
         return order, res
 
     @staticmethod
@@ -147,8 +149,8 @@ def install_pool(mode='controlled'):
                 m.Pool = _REAL[m.__name__]
 
 
-def set_policy(order='identity', seed=0):
-    CPool.policy = {'order': order, 'seed': seed}
+def set_policy(order='identity', seed=0, capture=False):
+    CPool.policy = {'order': order, 'seed': seed, 'capture': capture}
     CPool.ncalls = 0
     CPool.log = []
 
